@@ -1306,7 +1306,8 @@ type Handler struct {
 	items                               []Item
 }
 
-var handlerModules = []string{"vault", "locker", "lend", "liquidity", "auctionsV2", "esm", "liquidation", "liquidationsV2", "auction"}
+var handlerModules = []string{"vault", "locker", "lend", "liquidity", "auctionsV2", "esm", "liquidation", "liquidationsV2", "auction",
+	"asset", "collector", "rewards", "tokenmint"}
 
 func extractHandlers() []Handler {
 	var out []Handler
@@ -1561,6 +1562,10 @@ var sweepFuncs = [][2]string{
 	{"x/liquidationsV2/keeper", "LiquidateIndividualVault"}, {"x/liquidationsV2/keeper", "LiquidateIndividualBorrow"},
 	{"x/liquidationsV2/keeper", "LiquidateForSurplusAndDebt"},
 	{"x/auction/keeper", "SurplusActivator"}, {"x/auction/keeper", "DebtActivator"},
+	// the payout units of the rewards BeginBlocker (external reward programmes of lockers, vaults, lend positions); the fourth unit,
+	// DistributeExtRewardStableVault, has no control test at all (notes/C14.md, observation) and is therefore not listed
+	{"x/rewards/keeper", "DistributeExtRewardLocker"}, {"x/rewards/keeper", "DistributeExtRewardVault"},
+	{"x/rewards/keeper", "DistributeExtRewardLend"},
 }
 
 func polarity(c ast.Expr, pred func(ast.Expr) bool) string {
@@ -2009,6 +2014,7 @@ func main() {
 	sw := extractSweeps()
 	pcs := extractPriceCalls()
 	trs := extractTwaReads()
+	eps, pts, pb, props, ibc := extractEntryPoints(hs, ws)
 
 	var b strings.Builder
 	b.WriteString("/-! GENERATED by extract/guards from the comdex source tree — do not edit; regenerated on every run.\n")
@@ -2113,7 +2119,9 @@ func main() {
 		}
 		fmt.Fprintf(&b, "  { file := %s, fn := %s, var := %s, asset := %s, status := %s, tested := %s, foundChecked := %s, line := %d }%s\n", q(c.file), q(c.fn), q(c.v), q(c.asset), q(c.status), q(c.tested), bl(c.foundChecked), c.line, sep)
 	}
-	b.WriteString("]\n\nend Comdex.Gen.Guards\n")
+	b.WriteString("]\n\n")
+	writeEntryTables(&b, eps, pts, pb, props, ibc)
+	b.WriteString("end Comdex.Gen.Guards\n")
 	if *out == "" {
 		fmt.Print(b.String())
 		return
